@@ -13,6 +13,7 @@
 #include <vector>
 
 #include "../tracked.h"
+#include "../iter_script.h"
 
 using verif::reg;
 
@@ -167,6 +168,14 @@ static std::string run(const std::vector<std::string> &t) {
         std::reverse(bw.begin(), bw.end());
         bool okEmpty = rb.empty() == (rb.size() == 0) && rb.full() == (rb.size() == rb.capacity());
         return finish(a == b && fw == bw && okEmpty ? a : "l=iteration-mismatch");
+    });
+    if (op == "it") return with(o, [&](auto &rb) {
+        // odd start positions go through the const container (the const_iterator instantiation)
+        const auto &crb = rb;
+        auto val = [](const Elem &e) { return valueOf(e); };
+        std::string r = (num(2) & 1) ? verif::iterScript([&] { return crb.begin(); }, val, t, 2)
+                                     : verif::iterScript([&] { return rb.begin(); }, val, t, 2);
+        return finish(r);
     });
     if (op == "size") return with(o, [&](auto &rb) { return finish("n=" + std::to_string(rb.size())); });
     if (op == "cap") return with(o, [&](auto &rb) { return finish("n=" + std::to_string(rb.capacity())); });
